@@ -186,9 +186,11 @@ func (e *btEnv) finding(sig string, props []string, what string) {
 const btSigRejectedLeak = "batch-build:rejected-build-leaves-slabs"
 
 // rejectedBuildCheck is the oracle for a bulk build that returned an error (call it before the
-// effects are emitted): C18 "leaves ... the pending write set exactly as [it was]", C09 "nothing
-// else remains".  The slabs the rejected request stored are still in the write set, no container
-// refers to them and the caller received nothing it could dispose of.
+// effects are emitted): C09 "nothing else remains" (filed under C09, which runs this stream too).
+// The slabs the rejected request stored are still in the write set, no container refers to them
+// and the caller received nothing it could dispose of.  (C18's "leaves ... the pending write set
+// exactly as it was" is arguable only: a malformed element stream is not among the argument
+// errors C18 lists, and the code classes DuplicateKey / Hash errors as Fatal, not User.)
 func (e *btEnv) rejectedBuildCheck(what string, err error) {
 	left := hx.StoredIDs(e.rec.Effs)
 	_, herr := atree.CheckStorageHealth(e.ps, e.roots)
@@ -206,7 +208,7 @@ func (e *btEnv) rejectedBuildCheck(what string, err error) {
 			inWS++
 		}
 	}
-	e.finding(btSigRejectedLeak, []string{"C17", "C18", "C09"}, fmt.Sprintf(
+	e.finding(btSigRejectedLeak, []string{"C09"}, fmt.Sprintf(
 		"%s rejected with %s left %d slab(s) it had stored (first %s; %d of them in the pending write set), referenced by no container and not handed back; CheckStorageHealth(expected %d roots): %v",
 		what, btErrKind(err), len(left), hx.IDStr(left[0]), inWS, e.roots, herr))
 }
